@@ -60,12 +60,23 @@ class Rig:
         self.observers = {}
 
     def observer(self, key, oid):
+        """even ids: one function object per observer; odd ids: a BOUND METHOD, i.e. a fresh (equal, not identical) object on
+        every access - how clients normally register (`acc.watch(self._on_change)` / `acc.unwatch(self._on_change)`)"""
         k = (key, oid)
         if k not in self.observers:
-            def cb(sender, old, new, _k=k):
-                self.calls.append((_k[0], _k[1], sender, old, new, self.s.status_block))
-            self.observers[k] = cb
-        return self.observers[k]
+            if oid % 2 == 1:
+                rig = self
+
+                class Obs:
+                    def cb(self, sender, old, new, _k=k):
+                        rig.calls.append((_k[0], _k[1], sender, old, new, rig.s.status_block))
+                self.observers[k] = Obs()
+            else:
+                def cb(sender, old, new, _k=k):
+                    self.calls.append((_k[0], _k[1], sender, old, new, self.s.status_block))
+                self.observers[k] = cb
+        o = self.observers[k]
+        return o.cb if oid % 2 == 1 else o
 
 
 def item_raw(it, block):
